@@ -7,7 +7,10 @@ extracted model.  Three comparisons, from strict to semantic:
       step in the model (is_model_run), is one of the model's runs,
   (3) the extracted, proved checker is_topo_order accepts the output.
 The property predicate is evaluated directly on the implementation in pure
-Python as well (oracle).  (2) failing with (3) and the oracle passing is a
+Python as well (oracle), on the plain sort (list of dicts with int ids) and on
+every other spelling of the same log (_plans: id types, parents / log /
+revision containers, consumers); an order that differs from the plain sort's
+is also submitted to the proved checker.  (2) failing with (3) and the oracle passing is a
 model disagreement, not a property violation.
 """
 import collections
@@ -26,12 +29,13 @@ RULE = ("random DAGs (linear, forks, merges up to 6 parents, repeated parents, s
         "components, only isolated revisions, complete DAGs, one octopus merge of everything, parent lists that repeat one parent), "
         "ids relabelled at random (0 included), log order shuffled / oldest-first / newest-first / breadth-first from the heads "
         "(the order of Storage.revision_log()); plus deep histories of 1100-2600 (thorough: up to 12000) "
-        "revisions in a row - linear, mostly linear with side branches, merge ladders - and wide ones (one root with 1100 children, "
-        "one merge with 1100 parents, a parent named 1200 times, a comb; thorough: 1500 and 6000) newest-first, oldest-first and "
+        "revisions in a row - linear, mostly linear with side branches, merge ladders - and wide ones (one root with ~1100 children, "
+        "one merge with ~1100 parents, a parent named 1200 times, a comb; thorough: 1500 and 6000) newest-first, oldest-first and "
         "shuffled.  Every log is sorted several times, the property being evaluated on every output: with its ids as "
         "20-byte strings / str / tuples / mixed types and parents as tuples, as a generator, as an iterator (logs of > 5 revisions: "
         "one of the three per case), and (seeded by the "
-        "case's fields v, k: one combination per case in the quick tier - two for logs of <= 5 revisions -, three in the thorough tier) "
+        "case's fields v, k: one random combination per case in the quick tier, three in the thorough tier, two for logs of <= 5 revisions, "
+        "one for logs of >= 100) "
         "in random combinations of: id type (also minimal byte strings with b'' for 0, '' for 0, negative ints, "
         "ids that all have the same hash, parent references equal to the id but of another type: float/bool for int, a bytes "
         "subclass for bytes, real Revision.to_dict() dictionaries with computed sha1 ids), parents container (list, tuple, deque, "
@@ -508,7 +512,7 @@ def compare(c, ires, mres):
 
 def _keep(c, log):
     d = {"log": log}
-    for k in ("v", "o"):
+    for k in ("v", "k", "o"):
         if k in c:
             d[k] = c[k]
     return d
